@@ -110,13 +110,20 @@ Inductive op :=
   | Rejected
   (* insert_many whose bulk statement raises on row |done|+1 of |done|+rest: the upserts
      ran, the rows before the failing one stay in the open transaction, and (try/finally,
-     since ec39c3d) conditional_commit still runs with the length of ALL rows — an
-     over-count, which is safe.  done = []: unknown bucket (NOT NULL bucketrow on the first
-     row).  done <> []: a row whose start/end does not fit SQLite's 64-bit INTEGER
-     (OverflowError at bind time) after rows that were fine. *)
+     since ec39c3d) conditional_commit still runs with the number of ALL statements of the
+     call — an over-count, which is safe.  done = []: unknown bucket (NOT NULL bucketrow on
+     the first row).  done <> []: a row whose start/end does not fit SQLite's 64-bit INTEGER
+     (OverflowError at bind time) after rows that were fine.
+     Since a00ceb1 the upsert loop is inside the same try: an insert_many whose (|ups|+1)-th
+     UPDATE raises at bind time is [InsertManyFailed ups [] rest] with rest = the upserts
+     that did not run + all id-less rows (no bulk statement is issued then; [ExecMany []]
+     writes nothing). *)
   | InsertManyFailed (ups done : list Z) (rest : nat).
 
-Definition script_replace (w : Z) : list micro := [Exec w; CondCommit 1].
+(* def _replace(...): the UPDATE alone (the helper insert_many's upsert loop calls since
+   a00ceb1);  def replace(...): self._replace(...); self.conditional_commit(1) *)
+Definition script__replace (w : Z) : list micro := [Exec w].
+Definition script_replace (w : Z) : list micro := script__replace w ++ [CondCommit 1].
 Definition script_get_metadata : list micro := [Read].
 
 Definition expand (o : op) : list micro :=
@@ -125,8 +132,11 @@ Definition expand (o : op) : list micro :=
   | UpdateBucket w => [Exec w; Commit] ++ script_get_metadata
   | DeleteBucket w1 w2 => [Exec w1; Exec w2; Commit]
   | InsertOne w => [Exec w; CondCommit 1]
+  (* try: the upserts, then the bulk INSERT;  finally: ONE conditional_commit for the whole
+     batch (a00ceb1; before it every upsert was a [script_replace] block of its own) *)
   | InsertMany ups rows =>
-      flat_map script_replace ups ++ [ExecMany rows; CondCommit (Z.of_nat (length rows))]
+      flat_map script__replace ups ++
+      [ExecMany rows; CondCommit (Z.of_nat (length ups + length rows))]
   | ReplaceLast w => [Exec w; CondCommit 1]
   | Replace w => script_replace w
   | Delete w => [Exec w; CondCommit 1]
@@ -137,7 +147,8 @@ Definition expand (o : op) : list micro :=
   | GetMetadata => script_get_metadata
   | Rejected => []
   | InsertManyFailed ups done rest =>
-      flat_map script_replace ups ++ [ExecMany done; CondCommit (Z.of_nat (length done + rest))]
+      flat_map script__replace ups ++
+      [ExecMany done; CondCommit (Z.of_nat (length ups + (length done + rest)))]
   end.
 
 Definition expand_all (h : list op) : list micro := flat_map expand h.
